@@ -485,6 +485,11 @@ class CallMixin:
     # ------------------------------------------------------------------ builtins
     def bi_len(self, args, kws, st, node, k):
         v = args[0]
+        if isinstance(v, VOpt):
+            if self.spec:
+                return self.bi_len([v.inner], kws, st, node, k)
+            return self.guard(st, z3.Not(v.isnone), 'TypeError', 'len-none', node,
+                              lambda s: self.bi_len([v.inner], kws, s, node, k))
         if isinstance(v, VTup):
             return k(st, VInt(len(v.items)))
         if isinstance(v, VRef) and isinstance(st.heap[v.rid], HList):
@@ -499,6 +504,9 @@ class CallMixin:
     def bi_list(self, args, kws, st, node, k):
         if not args:
             return k(st, st.alloc(HList(None, None, z3.IntVal(0))))
+        if isinstance(args[0], VOpt):
+            return self.guard(st, z3.Not(args[0].isnone), 'TypeError', 'list-none', node,
+                              lambda s: self.bi_list([args[0].inner] + list(args[1:]), kws, s, node, k))
         src = self.hlist(self.iter_to_list(args[0], st), st)
         return k(st, st.alloc(HList(src.et, src.arr, src.n)))
 
@@ -701,6 +709,12 @@ class CallMixin:
 
     def bi_getattr(self, args, kws, st, node, k):
         o, name = args[0], self.lit_of(args[1])
+        if name is not None and isinstance(o, VRef) and isinstance(st.heap[o.rid], HRec):
+            h = st.heap[o.rid]                   # a record: declared fields exist (dynamic ones per their presence bit)
+            if name in h.fields and name not in h.present:
+                return k(st, h.fields[name])
+            if name not in h.fields and len(args) == 3:
+                return k(st, args[2])
         if name is None or not isinstance(o, VObj):
             raise Unsupported("getattr(%r, %r) (line %s)" % (o, args[1], node.lineno))
         t = self.objattrs.get((o.sort, name))
